@@ -901,7 +901,108 @@ def prop_C01(ctx):
     return ctx.finish()
 
 
+# ---------------------------------------------------------------------------------------------- C07
+def body_meaning(imp, key):
+    """flavour-independent reading of an impl body: struct meaning, or for enums the match arms"""
+    kind, fallible, cp, _ = key
+    m = oracles.actual_struct_meaning(imp, fallible, kind.endswith('existing'), with_lets=True)
+    if m is not None:
+        return m
+    blk = oracles.fn_block(imp)
+    if blk is None:
+        return None
+    stmts = [x for x in blk[1:]]
+    lets = [oracles.sem_text(x[2]) if len(x) > 2 else '' for x in stmts if x[0] == 'let']
+    rest = [x for x in stmts if x[0] != 'let']
+    if len(rest) == 1 and rest[0][0] == 'tail':
+        e = rest[0][1]
+        if fallible and isinstance(e, list) and e[0] == 'call' and oracles.sval(e[1]) == 'Ok' and len(e) == 3:
+            e = e[2]
+        return ('expr', tuple(lets), oracles.sem_text(e))
+    return ('stmts', tuple(oracles.sem_text(x[1]) if x[0] in ('stmt', 'tail') else repr(x) for x in stmts))
+
+
+def prop_C07(ctx):
+    ctx.build()
+    q = ctx.tier == 'quick'
+    recs = ctx.run_set('flavours', gen.c07_cases(ctx.rng, 4000 if q else 40000), obs_sem, sem=True)
+    npairs = 0
+    for r in recs:
+        if vlib.outcome_class(r['out']) != 'ok' or not r.get('sem'):
+            continue
+        ims = oracles.sem_impls(r['sem'])
+        if not ims:
+            continue
+        by = {}
+        for key, imp in ims:
+            if key is not None:
+                by[(key[0], key[1], key[2])] = body_meaning(imp, key)
+        for (kind, fall, cp), m in by.items():
+            # owned vs by-reference
+            if kind.startswith('owned') or kind == 'from_owned':
+                other = {'owned_into': 'ref_into', 'from_owned': 'from_ref', 'owned_into_existing': 'ref_into_existing'}[kind]
+                if (other, fall, cp) in by:
+                    npairs += 1
+                    if by[(other, fall, cp)] != m:
+                        ctx.report(r, 'the by-reference conversion (%s) does not build what the owned one (%s) builds: %r vs %r' % (other, kind, by[(other, fall, cp)], m),
+                                   'flavour comparison on the syn-parsed bodies', key='ref-vs-owned:' + kind)
+            # fallible vs infallible
+            if not fall and (kind, True, cp) in by:
+                npairs += 1
+                if by[(kind, True, cp)] != m and not (m and m[0] == 'stmts'):
+                    ctx.report(r, 'the fallible conversion (%s) is not Ok(..) of the infallible one: %r vs %r' % (kind, by[(kind, True, cp)], m),
+                               'flavour comparison on the syn-parsed bodies', key='try-vs-plain:' + kind)
+            # into vs into_existing (+ frame: exactly the mapped places are assigned)
+            if kind in ('owned_into', 'ref_into'):
+                ex = kind + '_existing'
+                for f2 in (False, True):
+                    if (ex, f2, cp) in by and m is not None:
+                        npairs += 1
+                        me = by[(ex, f2, cp)]
+                        lets_i = lets_e = ()
+                        if m[0] == 'lets':
+                            lets_i, m0 = m[1], m[2]
+                        else:
+                            m0 = m
+                        if me is not None and me[0] == 'lets':
+                            lets_e, me = me[1], me[2]
+                        if lets_i != lets_e:
+                            ctx.report(r, 'into_existing (%s) and %s do not evaluate the same vars' % (ex, kind), 'flavour comparison', key='existing-vs-into-vars:' + kind)
+                            continue
+                        if m0[0] == 'named':
+                            want = ('assign', {'other.' + k: v for k, v in m0[1].items()})
+                            if m0[2] is not None:
+                                continue          # `..update` has no into_existing counterpart
+                        elif m0[0] == 'tuple':
+                            want = ('assign', {'other.%d' % i: v for i, v in enumerate(m0[1])})
+                        elif m0[0] == 'unit':
+                            want = ('assign', {})
+                        else:
+                            continue
+                        if me != want:
+                            ctx.report(r, 'into_existing (%s) does not leave the existing value equal to what %s produces on the mapped fields, or touches another field: '
+                                       '%r vs %r' % (ex, kind, me, want), 'flavour comparison on the syn-parsed bodies', key='existing-vs-into:' + kind)
+    ctx.cov['flavour_pairs_compared'] = npairs
+    recs2 = ctx.run_set('index_rename', gen.c01_index_perm_cases(ctx.rng, 200 if q else 2000), obs_sem, sem=True)
+    for r in recs2:
+        if vlib.outcome_class(r['out']) != 'ok' or not r.get('sem'):
+            continue
+        by = {}
+        for key, imp in oracles.sem_impls(r['sem']) or []:
+            if key is not None:
+                by[(key[0], key[1], key[2])] = body_meaning(imp, key)
+        for (kind, fall, cp), m in by.items():
+            if kind in ('owned_into', 'ref_into') and m and m[0] == 'tuple':
+                for f2 in (False, True):
+                    me = by.get((kind + '_existing', f2, cp))
+                    if me is not None and me != ('assign', {'other.%d' % i: v for i, v in enumerate(m[1])}):
+                        ctx.report(r, 'into_existing and into disagree on the destination positions when members are renamed by index', 'flavour comparison',
+                                   key='index-rename-tuple-dest')
+    return ctx.finish()
+
+
 PROPS = {
+    'C07': prop_C07,
     'C01': prop_C01,
     'C15': prop_C15,
     'C14': prop_C14,
